@@ -176,17 +176,19 @@ theorem getD_allIn (lo hi : Int) (h0 : lo ≤ 0 ∧ 0 ≤ hi) (b : List Int) (hb
   | some v => simpa using hb v (List.mem_of_getElem? h)
 
 /-- **C17.T1c** Every output element the model computes for a SIMD kernel that cannot saturate,
-on a well-formed request (packed GEMM path or gemv path), equals `wrap32 (Σ_k (a_ik − za_i)(b_kj − zb_j) + c0_ij)` — whether or
+on a well-formed request (`Request.WF`: every tensor has the announced size, so no `getD` default is
+ever taken; `i < m`, `j < n`; packed GEMM path or gemv path), equals `wrap32 (Σ_k (a_ik − za_i)(b_kj − zb_j) + c0_ij)` — whether or
 not A and/or B are prepacked (`r.preA`, `r.preB` are unconstrained).  Before the fix of
 `findings/C17.json` (`C17-prepacked-*-zero-points-ignored`) this needed the extra hypothesis
 "nothing is prepacked": see `c17_prepacked_zero_points_were_ignored`. -/
-theorem c17_gemm_entry_exact (r : Request) (i j : Nat)
-    (hk : r.kern = .simd) (hsat : r.sat = false) (hkc : 0 < r.kc)
-    (hi : (i + 1) * r.k ≤ r.a.length) :
+theorem c17_gemm_entry_exact (r : Request) (i j : Nat) (hwf : r.WF) (hi : i < r.m) (_hj : j < r.n)
+    (hk : r.kern = .simd) (hsat : r.sat = false) (hkc : 0 < r.kc) :
     entry r i j =
       wrap32 (dotZ ((r.za.map (·.getD i 0)).getD 0) ((r.zb.map (·.getD j 0)).getD 0)
         (rowOf r.k r.a i) (colOf r.n r.k r.b j) +
         (r.c0.map (·.getD (i * r.n + j) 0)).getD 0) := by
+  have hi : (i + 1) * r.k ≤ r.a.length := by
+    rw [hwf.a_len]; exact Nat.mul_le_mul_right _ hi
   have hlen : (rowOf r.k r.a i).length = (colOf r.n r.k r.b j).length := by
     rw [rowOf_length r.k r.a i hi, colOf_length]
   unfold entry
@@ -200,14 +202,15 @@ theorem c17_gemm_entry_exact (r : Request) (i j : Nat)
     cases r.c0 <;> simp
 
 /-- Same statement for the saturating kernels under the documented reduced RHS range. -/
-theorem c17_gemm_entry_exact_saturating (r : Request) (i j : Nat)
-    (hk : r.kern = .simd) (hkc : 0 < r.kc)
-    (hi : (i + 1) * r.k ≤ r.a.length)
+theorem c17_gemm_entry_exact_saturating (r : Request) (i j : Nat) (hwf : r.WF) (hi : i < r.m)
+    (_hj : j < r.n) (hk : r.kern = .simd) (hkc : 0 < r.kc)
     (ha : AllIn 0 255 r.a) (hb : AllIn (-64) 63 r.b) :
     entry r i j =
       wrap32 (dotZ ((r.za.map (·.getD i 0)).getD 0) ((r.zb.map (·.getD j 0)).getD 0)
         (rowOf r.k r.a i) (colOf r.n r.k r.b j) +
         (r.c0.map (·.getD (i * r.n + j) 0)).getD 0) := by
+  have hi : (i + 1) * r.k ≤ r.a.length := by
+    rw [hwf.a_len]; exact Nat.mul_le_mul_right _ hi
   have hlen : (rowOf r.k r.a i).length = (colOf r.n r.k r.b j).length := by
     rw [rowOf_length r.k r.a i hi, colOf_length]
   have hrow : AllIn 0 255 (rowOf r.k r.a i) := (ha.drop _).take _
@@ -273,7 +276,7 @@ theorem c17_gemm_entry_no_overflow (r : Request) (i j : Nat) (hwf : r.WF) (hi : 
       (rowOf r.k r.a i) (colOf r.n r.k r.b j) := by
   have hik : (i + 1) * r.k ≤ r.a.length := by
     rw [hwf.a_len]; exact Nat.mul_le_mul_right _ hi
-  rw [c17_gemm_entry_exact r i j hk hsat hkc hik, hc0]
+  rw [c17_gemm_entry_exact r i j hwf hi _hj hk hsat hkc, hc0]
   simp only [Option.map_none, Option.getD_none, Int.add_zero]
   have hrow : AllIn 0 255 (rowOf r.k r.a i) := (ha.drop _).take _
   have hcol := colOf_allIn (-128) 127 (by omega) r.n j r.k r.b hb
@@ -286,6 +289,40 @@ theorem c17_gemm_entry_no_overflow (r : Request) (i j : Nat) (hwf : r.WF) (hi : 
     | none => simp
     | some l => simpa using getD_allIn (-128) 127 (by omega) l (hzb l hz) j
   exact c17_no_i32_overflow _ _ hzai hzbj _ _ hrow hcol (by rw [rowOf_length r.k r.a i hik]; exact hK)
+
+/-- `gemmChecked` never defaults: an `.ok` answer implies the request is well formed, the output
+buffer has `m·n` elements, and the answer is `gemm r`. -/
+theorem gemmChecked_ok (r : Request) (o : Nat) (l : List Int) (h : gemmChecked r o = .ok l) :
+    r.WF ∧ o = r.m * r.n ∧ l = gemm r := by
+  unfold gemmChecked at h
+  by_cases hab : (r.a.length != r.m * r.k || r.b.length != r.k * r.n) = true
+  · rw [if_pos hab] at h; cases h
+  · rw [if_neg hab] at h
+    simp only [Bool.or_eq_true, bne_iff_ne, ne_eq, not_or, Decidable.not_not] at hab
+    cases hargs : checkGemmArgs r.m r.k r.k r.n (r.za.map (·.length)) (r.zb.map (·.length)) o with
+    | error e => rw [hargs] at h; cases h
+    | ok u =>
+      rw [hargs] at h
+      simp only [] at h
+      by_cases hc : ((r.c0.map (·.length)).any (· != r.m * r.n)) = true
+      · rw [if_pos hc] at h; cases h
+      · rw [if_neg hc] at h
+        unfold checkGemmArgs at hargs
+        simp only [bne_self_eq_false, Bool.false_eq_true, if_false] at hargs
+        by_cases hza : ((r.za.map (·.length)).any (· != r.m)) = true
+        · rw [if_pos hza] at hargs; cases hargs
+        · rw [if_neg hza] at hargs
+          by_cases hzb : ((r.zb.map (·.length)).any (· != r.n)) = true
+          · rw [if_pos hzb] at hargs; cases hargs
+          · rw [if_neg hzb] at hargs
+            by_cases ho : (o != r.m * r.n) = true
+            · rw [if_pos ho] at hargs; cases hargs
+            · simp only [Except.ok.injEq] at h
+              refine ⟨⟨hab.1, hab.2, ?_, ?_, ?_⟩, ?_, h.symm⟩
+              · intro z hz; simp [hz] at hza; exact hza
+              · intro z hz; simp [hz] at hzb; exact hzb
+              · intro z hz; simp [hz] at hc; exact hc
+              · simpa using ho
 
 def errOf {α : Type} : Except GemmErr α → Option GemmErr
   | .error e => some e
